@@ -66,6 +66,17 @@ mut("tree-marker-after-children", MAC, "        stack.push(Either::Right(Nesting
 mut("tree-parent-no-assign", MAC, "                __node = __temp;\n", "", ["C15"], note="found by the automut campaign: the Parent template no longer moves the cursor up")
 mut("append-ignores-error", IDR, """        self.checked_append(new_child, arena)
             .expect("Preconditions not met: invalid argument");""", """        let _ = self.checked_append(new_child, arena);""", ["C05"], note="the panicking wrapper swallows the refusal")
+mut("append-value-own-push", IDR, "        let new_child = arena.new_node(value);", "        let new_child = arena.push_node(value);", ["C03", "C07"],
+    extra=[(ARN, "    pub(crate) fn free_node(&mut self, id: NodeId) {", """    pub(crate) fn push_node(&mut self, data: T) -> NodeId {
+        let index = self.nodes.len();
+        let node = Node::new(data);
+        let stamp = node.stamp;
+        self.nodes.push(node);
+        let next_index1 = NonZeroUsize::new(index.wrapping_add(1)).expect("Too many nodes in the arena");
+        NodeId::from_non_zero_usize(next_index1, stamp)
+    }
+
+    pub(crate) fn free_node(&mut self, id: NodeId) {""")], note="append_value allocates through a path of its own that never recycles a removed slot")
 mut("new-pub-link-writer", IDR, "    pub fn remove_subtree<T>(self, arena: &mut Arena<T>) {", """    /// Forgets the parent of this node.
     pub fn orphan<T>(self, arena: &mut Arena<T>) {
         arena[self].parent = None;
